@@ -918,6 +918,10 @@ class SetIndex(BaseSetIndexSortValues):
             return self._filter_simplification(parent)
 
     def _filter_passthrough_available(self, parent, dependents):
+        if isinstance(self._other, Expr):
+            # the new index is a separate series, its rows would have to be
+            # filtered along with those of the frame
+            return False
         if is_filter_pushdown_available(self, parent, dependents):
             from dask_expr._expr import Index
 
